@@ -136,6 +136,7 @@ def build(name: str, external: bool) -> tuple[dict[str, Any], AffineEvaluator, i
     if spec.get("_numpy_options"):
         cfg["optimizer"] = {**cfg["optimizer"], "options": {k: (np.int64(v) if isinstance(v, int) else np.float64(v))
                                                            for k, v in cfg["optimizer"]["options"].items()}}
+        cfg["optimizer"]["options"]["disp"] = np.bool_(False)  # (a comparison of NumPy values gives such a boolean)
     if spec.get("_paths"):
         import tempfile
 
@@ -375,6 +376,8 @@ def run_child_error(case: dict[str, Any]) -> dict[str, Any]:
 
     env = dict(os.environ)
     env["PYTHONPATH"] = EXTPLUG + os.pathsep + env.get("PYTHONPATH", "")
+    if case.get("optimize"):  # both processes run with assertions compiled out (python -O / PYTHONOPTIMIZE)
+        env["PYTHONOPTIMIZE"] = "1"
     code = ("import json,sys\nfrom checks.c20_external import child_error_inner\n"
             "print('RESULT ' + json.dumps(child_error_inner(json.loads(sys.stdin.read()))))\n")
     proc = subprocess.Popen([sys.executable, "-c", code], stdin=subprocess.PIPE, stdout=subprocess.PIPE, stderr=subprocess.PIPE,  # noqa: S603
@@ -661,6 +664,8 @@ def shards(tier: str, seed: int) -> list[dict[str, Any]]:  # noqa: ARG001
     errors = [("empty", 0), ("empty", 1), ("assert", 2), ("message", 1), ("exit3", 1), ("finish", 2)] if tier == "quick" else [
         (e, k) for e in ("empty", "assert", "message", "exit3", "finish") for k in (0, 1, 2, 3)]
     items.extend({"kind": "child-error", "config": "failing-backend", "error": e, "after": k} for e, k in errors)
+    items.extend({"kind": "child-error", "config": "failing-backend", "error": e, "after": k, "optimize": True}
+                 for e, k in ([("message", 1), ("empty", 0)] if tier == "quick" else [(e, k) for e in ("message", "empty", "exit3", "finish") for k in (0, 1, 2)]))
     items.append({"kind": "daemon", "config": "slsqp"})
     items.extend({"kind": "parent-killed", "config": "slsqp", "at": at} for at in ((0, 2) if tier == "quick" else range(6)))
     # message sizes around the capacity of a pipe (64 KiB) and its multiples, every single length in a window, and small ones
